@@ -183,7 +183,12 @@ Definition in_para (quad : path) (q : pt) : bool :=
 
 Definition in_some (quads : paths) (q : pt) : bool := existsb (fun qd => in_para qd q) quads.
 
-Definition scale2 (ps : paths) : paths := map (map (pscale 2)) ps.
+(* all coordinates times k: k = 2 expresses half-integer sample points; a larger k (2 * 2^j) expresses the dyadic
+   coordinates of a PathD result exactly *)
+Definition scalek (k : Z) (ps : paths) : paths := map (map (pscale k)) ps.
+
+(* cross-check of the membership test against the winding-number vocabulary of base/Winding.v *)
+Definition wn_some (quads : paths) (q : pt) : bool := existsb (fun qd => negb (wn qd q =? 0)) quads.
 
 (* one evaluated sample point: point, net winding of the result there, membership in the union of the parallelograms *)
 Definition mfail := (pt * Z * bool)%type.
@@ -204,13 +209,22 @@ Definition mink_inside (ev : list mfail) : list mfail := filter (fun r : mfail =
 Definition check_mink (tn td : Z) (quads out : paths) (pts : list pt) : list mfail :=
   mink_fails (mink_eval tn td quads out pts).
 
-(* whole oracle entry: quads from the model (in original coordinates), doubled here; returns the evaluated
-   far sample points (the driver prints [mink_fails] of it and the two counts) *)
-Definition check_minkowski (pattern pth : path) (isSum isClosed : bool) (tn td : Z) (out2 : paths) (pts2 : list pt)
+(* whole oracle entry: quads from the model (in original coordinates), scaled by k here; out, pts and the
+   tolerance tn/td are given in k-scaled coordinates; returns the evaluated far sample points (the driver prints
+   [mink_fails] of it and the counts) *)
+Definition check_minkowski (pattern pth : path) (isSum isClosed : bool) (k tn td : Z) (outk : paths) (ptsk : list pt)
   : mres (list mfail) :=
   match minkowski pattern pth isSum isClosed with
-  | MOk quads => MOk (mink_eval tn td (scale2 quads) out2 pts2)
+  | MOk quads => MOk (mink_eval tn td (scalek k quads) outk ptsk)
   | MErr e => MErr e
+  end.
+
+(* evaluated points where "strictly inside some parallelogram" (cross products) and "some parallelogram has a
+   non-zero winding number there" disagree: must be empty off the edges (run-time consistency check of the oracle) *)
+Definition mink_xcheck (pattern pth : path) (isSum isClosed : bool) (k : Z) (ev : list mfail) : list mfail :=
+  match minkowski pattern pth isSum isClosed with
+  | MOk quads => filter (fun r : mfail => negb (Bool.eqb (snd r) (wn_some (scalek k quads) (fst (fst r))))) ev
+  | MErr _ => ev
   end.
 
 (* ------------------------------------------------------------------ sanity *)
